@@ -1005,8 +1005,8 @@ htp_status_t htp_connp_RES_HEADERS(htp_connp_t *connp) {
                     while ((colon_pos < len) && (data[colon_pos] != ':')) colon_pos++;
 
                     if (colon_pos < len &&
-                        bstr_chr(connp->out_header, ':') >= 0 &&
-                        connp->out_tx->response_protocol_number == HTP_PROTOCOL_1_1) {
+                        connp->out_tx->response_protocol_number == HTP_PROTOCOL_1_1 &&
+                        bstr_chr(connp->out_header, ':') >= 0) {
                         // Warn only once per transaction.
                         if (!(connp->out_tx->flags & HTP_INVALID_FOLDING)) {
                             connp->out_tx->flags |= HTP_INVALID_FOLDING;
